@@ -148,7 +148,7 @@ struct Model {
 	void on_timer_fired(int fd);
 	void on_timer_closed(int fd);
 	void on_routed_seen(int ref, const std::string &rid);
-	void on_routed_observed(int owner, const std::string &path, const JV *params, const std::string &rid);
+	bool on_routed_observed(int owner, const std::string &path, const JV *params, const std::string &rid);   // false: no request of the model explains the routed frame (yet)
 	void resolve_decision(int d, bool ok);
 	bool decision_pending() const;
 	std::vector<int> silent_decisions() const;
